@@ -26,6 +26,14 @@ type Setter struct {
 // BuildWill builds the *mq.Publish for a will through the public API.
 func BuildWill(w *model.Will) *mq.Publish {
 	p := mq.NewPublish()
+	ApplyWill(p, w)
+	return p
+}
+
+// ApplyWill sets every will field on an existing publish (used to change a
+// will message and attach the same object again).
+func ApplyWill(p *mq.Publish, w *model.Will) {
+	p.UserProperties = nil
 	p.SetTopicName(w.Topic)
 	p.SetPayload(cp(w.Payload))
 	p.SetQoS(w.QoS)
@@ -38,7 +46,6 @@ func BuildWill(w *model.Will) *mq.Publish {
 	for _, kv := range w.UserProps {
 		p.AddUserProp(kv.K, kv.V)
 	}
-	return p
 }
 
 type setReasonString interface{ SetReasonString(string) }
@@ -50,7 +57,13 @@ func userProps(get func(p mq.ControlPacket) *mq.UserProperties) Setter {
 		Name: "AddUserProp", IsList: true,
 		Len: func(m *model.Packet) int { return len(m.UserProps) },
 		Apply: func(p mq.ControlPacket, m *model.Packet, i int) {
-			get(p).AddUserProp(m.UserProps[i].K, m.UserProps[i].V)
+			// pass a slice with spare capacity and keep using it afterwards,
+			// as a caller may: the packet must have copied what it keeps
+			kv := make([]string, 2, 6)
+			kv[0], kv[1] = m.UserProps[i].K, m.UserProps[i].V
+			get(p).AddUserProp(kv...)
+			kv[0], kv[1] = "caller-reused-key", "caller-reused-value"
+			_ = append(kv, "caller", "appended")
 		},
 	}
 }
@@ -65,8 +78,9 @@ func Setters(typ uint8) []Setter {
 	case model.CONNECT:
 		c := func(p mq.ControlPacket) *mq.Connect { return p.(*mq.Connect) }
 		return []Setter{
-			sc("SetProtocolName", func(m *model.Packet) bool { return false }, func(p mq.ControlPacket, m *model.Packet) { c(p).SetProtocolName(m.ProtocolName) }),
-			sc("SetProtocolVersion", func(m *model.Packet) bool { return false }, func(p mq.ControlPacket, m *model.Packet) { c(p).SetProtocolVersion(m.ProtocolVersion) }),
+			// the constructor's defaults count as "zero": the setter may be skipped
+			sc("SetProtocolName", func(m *model.Packet) bool { return m.ProtocolName == "MQTT" }, func(p mq.ControlPacket, m *model.Packet) { c(p).SetProtocolName(m.ProtocolName) }),
+			sc("SetProtocolVersion", func(m *model.Packet) bool { return m.ProtocolVersion == 5 }, func(p mq.ControlPacket, m *model.Packet) { c(p).SetProtocolVersion(m.ProtocolVersion) }),
 			sc("SetCleanStart", func(m *model.Packet) bool { return !m.CleanStart }, func(p mq.ControlPacket, m *model.Packet) { c(p).SetCleanStart(m.CleanStart) }),
 			sc("SetKeepAlive", func(m *model.Packet) bool { return m.KeepAlive == 0 }, func(p mq.ControlPacket, m *model.Packet) { c(p).SetKeepAlive(m.KeepAlive) }),
 			sc("SetClientID", func(m *model.Packet) bool { return m.ClientID == "" }, func(p mq.ControlPacket, m *model.Packet) { c(p).SetClientID(m.ClientID) }),
@@ -171,7 +185,12 @@ func Setters(typ uint8) []Setter {
 				Name: "AddFilters", IsList: true,
 				Len: func(m *model.Packet) int { return len(m.Filters) },
 				Apply: func(p mq.ControlPacket, m *model.Packet, i int) {
-					c(p).AddFilters(mq.NewTopicFilter(m.Filters[i].Filter, mq.Opt(m.Filters[i].Opts)))
+					// a caller-owned list with spare capacity, reused afterwards
+					list := make([]mq.TopicFilter, 1, 4)
+					list[0] = mq.NewTopicFilter(m.Filters[i].Filter, mq.Opt(m.Filters[i].Opts))
+					c(p).AddFilters(list...)
+					list[0] = mq.NewTopicFilter("caller/reused", 3)
+					_ = append(list, mq.NewTopicFilter("caller/appended", 3), mq.NewTopicFilter("caller/appended2", 3))
 				},
 			},
 			userProps(func(p mq.ControlPacket) *mq.UserProperties { return &c(p).UserProperties }),
@@ -265,6 +284,9 @@ type Step struct {
 	Setter int
 	Elem   int
 	Probe  int `json:",omitempty"`
+	// Decoy: call the setter with the value of the decoy model instead; a
+	// later step sets the real value (last write wins).
+	Decoy bool `json:",omitempty"`
 }
 
 // Plan produces a call sequence for m: every list element in list order,
@@ -328,13 +350,65 @@ func Plan(m *model.Packet, order []int, skipZero []bool) []Step {
 // setter calls. SetWillDelayInterval etc. are plain scalars; SetWill receives
 // a freshly built will that is not touched afterwards.
 func Build(m *model.Packet, plan []Step) mq.ControlPacket {
+	return BuildDecoy(m, nil, plan)
+}
+
+// BuildDecoy is Build with a second model whose values are used by steps
+// marked Decoy (scalar setters only; each is followed by the real call).
+func BuildDecoy(m, decoy *model.Packet, plan []Step) mq.ControlPacket {
 	p := NewPacket(int(m.Type))
 	ss := Setters(m.Type)
 	for _, st := range plan {
+		if st.Decoy {
+			if decoy != nil && decoy.Type == m.Type && !ss[st.Setter].IsList {
+				ss[st.Setter].Apply(p, decoy, 0)
+			}
+			continue
+		}
 		ss[st.Setter].Apply(p, m, st.Elem)
 		Probe(p, st.Probe)
 	}
 	return p
+}
+
+// WithDecoys inserts, for the scalar steps selected by pick, a decoy call of
+// the same setter somewhere before the real call.
+func WithDecoys(m *model.Packet, plan []Step, pick func(i int) (use bool, before int)) []Step {
+	ss := Setters(m.Type)
+	out := append([]Step(nil), plan...)
+	for i := 0; i < len(plan); i++ {
+		st := plan[i]
+		if ss[st.Setter].IsList {
+			continue
+		}
+		// a will and a subscription identifier cannot be taken back: a decoy
+		// call is only sound when the real call sets a value as well
+		if name := ss[st.Setter].Name; (name == "SetWill" && m.Will == nil) || (name == "SetSubscriptionID" && m.SubID < 0) {
+			continue
+		}
+		use, before := pick(i)
+		if !use {
+			continue
+		}
+		// position of the real step in out
+		pos := -1
+		for j, o := range out {
+			if !o.Decoy && o.Setter == st.Setter && o.Elem == st.Elem {
+				pos = j
+				break
+			}
+		}
+		if pos < 0 {
+			continue
+		}
+		at := pos - before
+		if at < 0 {
+			at = 0
+		}
+		d := Step{Setter: st.Setter, Decoy: true}
+		out = append(out[:at], append([]Step{d}, out[at:]...)...)
+	}
+	return out
 }
 
 // Probe runs one read-only operation on p.
